@@ -8,6 +8,7 @@
  *   failall:<class>#<k>=<e> every call from the k-th on fails
  *   kill:out#<k>            _exit(137) immediately before the k-th write-like call on the output file
  *   cap:<class>=<n>         every call of class transfers at most n bytes
+ *   time:<t>                time(), clock_gettime() and gettimeofday() answer t
  *   perm:<dirname>=<code>   readdir on directories with that base name returns the sorted entries
  *                           permuted by the factorial-number-system code (0 = sorted); perm:*=<code> for all
  * classes: read pread write pwrite open close dup lseek trunc fsync unlink alloc mmap stat mk out
@@ -77,6 +78,7 @@ static void trace_point(const char *what, long k)
 	fprintf(stderr, "[envwrap] end of trace\n");
 }
 
+static long fake_time = -1;
 static int cls_by_name(const char *s, size_t n)
 {
 	for (int i = 0; i < C_NCLASS; ++i)
@@ -115,6 +117,8 @@ static void init(void)
 						perms[nperms].code = atol(eq + 1);
 						nperms++;
 					}
+				} else if (!strcmp(buf, "time")) {
+					fake_time = atol(rest);
 				} else if (!strcmp(buf, "cap")) {
 					char *eq = strchr(rest, '=');
 					if (eq) { int c = cls_by_name(rest, (size_t)(eq - rest)); if (c >= 0) cap[c] = atol(eq + 1); }
@@ -382,6 +386,37 @@ void *__wrap_mmap(void *addr, size_t len, int prot, int flags, int fd, off_t off
 	dev_t_ *d = find_dev(C_MMAP, k);
 	if (d && (d->kind == D_FAIL || d->kind == D_FAILALL)) { errno = ENOMEM; logcall(C_MMAP, k, fd, (long)len, -1, ENOMEM, 0); return MAP_FAILED; }
 	return __real_mmap(addr, len, prot, flags, fd, off);
+}
+
+/* ---------------------------------------------------------------- clock */
+#include <time.h>
+#include <sys/time.h>
+time_t __real_time(time_t *);
+int __real_clock_gettime(clockid_t, struct timespec *);
+int __real_gettimeofday(struct timeval *, void *);
+
+time_t __wrap_time(time_t *t)
+{
+	init();
+	if (fake_time < 0) return __real_time(t);
+	if (t) *t = (time_t)fake_time;
+	return (time_t)fake_time;
+}
+
+int __wrap_clock_gettime(clockid_t c, struct timespec *ts)
+{
+	init();
+	if (fake_time < 0) return __real_clock_gettime(c, ts);
+	ts->tv_sec = (time_t)fake_time; ts->tv_nsec = 123456789;
+	return 0;
+}
+
+int __wrap_gettimeofday(struct timeval *tv, void *tz)
+{
+	init();
+	if (fake_time < 0) return __real_gettimeofday(tv, tz);
+	tv->tv_sec = (time_t)fake_time; tv->tv_usec = 123456;
+	return 0;
 }
 
 /* ---------------------------------------------------------------- readdir permutation */
